@@ -58,6 +58,7 @@ def _node_content(R: Draw, g: DocGen, inline_ok: bool = True) -> list[dict]:
     out = []
     for _ in range(R.weighted([(1, 4), (2, 1)])):
         t = R.choice(pool)
+        pool = [x for x in pool if rs.inline[x] == rs.inline[t]]  # siblings: all inline or all block
         if t == "text":
             out.append(P.mk("text", {}, None, [], g.text(R)))
         else:
